@@ -17,7 +17,7 @@ ASSUMPTIONS = ["declared terminals count as generating (they derive themselves);
                "termination of unbounded get_words is restated as bounded progress under a step budget"]
 TIERS = {
     "quick": {"workers": 4, "random": 4000},
-    "thorough": {"workers": 16, "random": 12000, "pytest": True, "exhaustive": True, "hard_timeout": 3000},
+    "thorough": {"workers": 16, "random": 40000, "pytest": True, "exhaustive": True, "hard_timeout": 3000},
 }
 MIN = {"quick": {"C12.CFG.is_empty": 3000, "C12.CFG.is_finite": 3000, "C12.CFG.get_generating_symbols": 3000,
                  "C12.CFG.get_nullable_symbols": 3000, "C12.CFG.get_reachable_symbols": 3000, "C12.words": 10000},
